@@ -168,6 +168,27 @@ func (e *integEngine) checkC03Integ() {
 			}
 		}
 	}
+	// a run that was not cancelled leaves no stage waiting (flat pipelines only: the stages of a
+	// nested pipeline that never ran stay untouched)
+	if len(e.cancelCalls) == 0 {
+		for _, g := range e.w.AllGraphs() {
+			flat := !g.HasMissingCond()
+			for _, s := range g.Stages {
+				if s.Nested != nil {
+					flat = false
+				}
+			}
+			if !flat || !e.pipelineRan(g.Name) {
+				continue
+			}
+			for _, s := range g.Stages {
+				if st := e.stages[s.Name]; st != nil && statusName(st.ReadStatus()) == MWaiting {
+					c.Violate("C03", "left-waiting", "stage %s of %s is still Waiting after Schedule returned although the run was not cancelled (statuses: %s)", s.Name, g.Name, e.statusDump(g))
+					break
+				}
+			}
+		}
+	}
 	cnt := map[string]int{}
 	for _, ev := range c.Events {
 		if ev.Kind == "run-enter" || ev.Kind == "park:run-enter" {
@@ -235,7 +256,7 @@ func (e *integEngine) checkC13(x *integExpect) {
 					overrun = i
 				}
 			} else if r.EndSeq >= 0 {
-				want := fmt.Sprint(planExit(e.w.Plan(info.ID)))
+				want := fmt.Sprint(planExit(e.w.PlanFor(info.ID, e.pl.identity(info.GID))))
 				if r.Result != want {
 					c.Violate("C13", "in-time-command-affected", "command %s finished within its timeout but ended with %s, planned %s", info.Key, r.Result, want)
 				}
@@ -285,4 +306,14 @@ func (e *integEngine) checkC13(x *integExpect) {
 			c.Count("c13_tasks_without_overrun")
 		}
 	}
+}
+
+func (e *integEngine) statusDump(g *GraphSpec) string {
+	var parts []string
+	for _, s := range g.Stages {
+		if st := e.stages[s.Name]; st != nil {
+			parts = append(parts, s.Name+"="+statusName(st.ReadStatus()))
+		}
+	}
+	return strings.Join(parts, " ")
 }
